@@ -21,7 +21,7 @@ def gen(tier, rng):
                 for dw in [1, 2, 3, 7, sw, 2 * sw + 1]:
                     dh = [1, 3, sh, 2 * sh + 1][(n // 2) % 4]
                     n += 1
-                    if tier == "quick" and n % 2:
+                    if tier == "quick" and rz.pick(n, 133, [0, 0, 1]):
                         continue
                     boxes = [None]
                     # edge-flush and sub-pixel crops (units of 1/4 pixel)
@@ -29,6 +29,10 @@ def gen(tier, rng):
                         boxes += [(Q * sw - 1, 0, 1, Q * sh), (1, 1, Q * sw - 1, Q * sh - 1), (Q, 0, Q * (sw - 1), Q * sh)]
                     boxes += [(Q * sw - 2, Q * sh - 3 if sh > 0 and Q * sh > 3 else 0, 2, 3 if Q * sh >= 3 else Q * sh), (0, 0, 1, 1),
                               (0, 0, Q * sw, 1), (2, 0, Q * sw - 2, Q * sh)]
+                    # fractional right / bottom edges (the crop ends inside a pixel)
+                    if sw >= 2 and sh >= 2:
+                        boxes += [(1, 0, Q * sw - 3, Q * sh), (0, 1, Q * sw, Q * sh - 2), (2, 3, Q * sw - 5 if Q * sw > 5 else 1, Q * sh - 5 if Q * sh > 5 else 1),
+                                  (Q, Q, Q * sw - Q - 1, Q * sh - Q - 3 if Q * sh - Q > 3 else 1), (3, 2, 2, 2)]
                     box = rz.pick(n, 132, boxes)
                     lay = [{"k": "image_ref", "guard": 1}, {"k": "typed_ref", "guard": 1}, {"k": "crop_ref", "pad": [0, 1, 0, 0], "guard": 1},
                            {"k": "image_ref", "guard": 2}][n % 4]
